@@ -248,6 +248,7 @@ def conjunct_obligations(rep):
     else:
         rep.undecided(oid, 'pysym', f'sufficient condition not established ({v.detail[:200]}): the decision rests on C08.filter.path.* up to its depth', function=fn, clause=clause, soft=True)
 
+    limit_transfer_obligations(rep)
     fn2 = f'{PJ}:PlanJoinTablesQuery.check_query_conditions'
 
     def make_args2(ex):
@@ -317,6 +318,207 @@ def conjunct_obligations(rep):
         rep.proved(oid2, 'pysym', detail, function=fn2, clause=clause2, seconds=secs)
     else:
         rep.undecided(oid2, 'pysym', f'sufficient condition not established ({detail[:200]}): the decision rests on C08.filter.path.* up to its depth', function=fn2, clause=clause2, soft=True)
+
+
+def limit_transfer_obligations(rep):
+    """process_table when the LIMIT push-down was judged safe (use_limit) or not: LIMIT stays on the outer query, OFFSET is applied exactly once
+    (moved into the fetch together with LIMIT, or left on the outer query), a pushed LIMIT carries the complete ORDER BY"""
+    from mindsdb_sql.parser.ast import Identifier, OrderBy
+    fn = f'{PJ}:PlanJoinTablesQuery.process_table'
+    for use_limit in (True, False):
+        for order in ('none', 'own', 'other', 'unknown', 'own+other'):
+            for has_offset in (True, False):
+                def make_args(ex, use_limit=use_limit, order=order, has_offset=has_offset):
+                    selfo = SymObj(None, 'self', prov='param')
+                    selfo.known_not_none = True
+                    selfo.fields['query_context'] = ex.param_container({'binary_ops': ['and'], 'use_limit': use_limit})
+                    item = SymObj(None, 'item', prov='param')
+                    item.known_not_none = True
+                    tbl = SymObj({Identifier}, 'table', prov='param')
+                    tbl.known_not_none = True
+                    tbl.fields.update(alias=None, parentheses=False, parts=ex.param_container(['tbl1']))
+                    tbl.closed = True
+                    item.fields.update(table=tbl, integration='int1', conditions=ex.param_container([]), index=0)
+                    other_tbl = SymObj({Identifier}, 'other_table', prov='param')
+                    own_info = SymObj(None, 'own_info', prov='param')
+                    own_info.known_not_none = True
+                    own_info.fields['table'] = tbl
+                    oth_info = SymObj(None, 'other_info', prov='param')
+                    oth_info.known_not_none = True
+                    oth_info.fields['table'] = other_tbl
+                    cols = []
+                    for i, kind in enumerate([] if order == 'none' else order.split('+')):
+                        f = SymObj({Identifier}, f'order_col{i}', prov='param')
+                        f.known_not_none = True
+                        f.copyable = True
+                        f.closed = True
+                        f.fields.update(alias=None, parentheses=False, parts=ex.param_container(['t', f'c{i}']))
+                        ob = SymObj({OrderBy}, f'order{i}', prov='param')
+                        ob.known_not_none = True
+                        ob.copyable = True
+                        ob.fields.update(field=f, direction='default', nulls='default', alias=None, parentheses=False)
+                        cols.append((ob, f, kind))
+                    infos = {id(f): {'own': own_info, 'other': oth_info, 'unknown': None}[k] for ob, f, k in cols}
+                    selfo.fields['get_table_for_column'] = Stub(lambda ex_, a, k: infos.get(id(a[0])), 'get_table_for_column')
+                    selfo.fields['get_filters_from_join_conditions'] = Stub(lambda ex_, a, k: [], 'get_filters_from_join_conditions')
+                    captured = []
+                    planner = SymObj(None, 'planner', prov='param')
+                    planner.known_not_none = True
+                    planner.fields['get_integration_select_step'] = Stub(lambda ex_, a, k: (captured.append(a[0]), SymObj(None, 'step', prov='fresh'))[1], 'get_integration_select_step')
+                    selfo.fields['planner'] = planner
+                    selfo.fields['add_plan_step'] = Stub(lambda ex_, a, k: a[0], 'add_plan_step')
+                    selfo.fields['step_stack'] = ex.param_container([])
+                    selfo.fields['tables_fetch_step'] = ex.param_container({})
+                    q = SymObj(None, 'query_in', prov='param')
+                    q.known_not_none = True
+                    L = SymObj(None, 'LIMIT', prov='param')
+                    L.known_not_none = True
+                    O = None
+                    if has_offset:
+                        O = SymObj(None, 'OFFSET', prov='param')
+                        O.known_not_none = True
+                    q.fields.update(limit=L, offset=O, order_by=None if order == 'none' else ex.param_container([ob for ob, f, k in cols]))
+                    ex.path_state.update(captured=captured, q=q, L=L, O=O, cols=cols)
+                    return [selfo, item, q], {}
+
+                def post(ex, o, use_limit=use_limit, order=order, has_offset=has_offset):
+                    if o.kind != 'return':
+                        return f'raises {getattr(o.value, "__name__", o.value)}'
+                    st = o.state
+                    cap = st['captured']
+                    if len(cap) != 1:
+                        return f'{len(cap)} fetch queries built'
+                    q2, q, L, O = cap[0], st['q'], st['L'], st['O']
+                    f2 = q2.fields
+                    l2, o2, ob2 = f2.get('limit'), f2.get('offset'), f2.get('order_by')
+                    if q.fields.get('limit') is not L:
+                        return 'the LIMIT of the outer query is removed or replaced'
+                    pushed = l2 is not None
+                    if pushed and l2 is not L:
+                        return f'the fetch gets a LIMIT {l2!r} that is not the LIMIT of the query'
+                    if not use_limit and (pushed or o2 is not None):
+                        return 'LIMIT / OFFSET is pushed into the fetch although the push-down was not judged safe'
+                    if pushed:
+                        if not (o2 is O and q.fields.get('offset') is None):
+                            return f'LIMIT is pushed into the fetch but OFFSET is not moved with it (fetch offset {o2!r}, outer offset {q.fields.get("offset")!r}, written {O!r})'
+                        n_written = 0 if order == 'none' else len(order.split('+'))
+                        if n_written and not (isinstance(ob2, list) and len(ob2) == n_written):
+                            return f'LIMIT is pushed into the fetch without the complete ORDER BY of the query ({ob2!r})'
+                        if order != 'none' and any(k != 'own' for _, _, k in st['cols']):
+                            return 'LIMIT is pushed into the fetch although the query orders by a column that is not a column of this table'
+                    else:
+                        if o2 is not None:
+                            return 'OFFSET is pushed into the fetch without LIMIT'
+                        if q.fields.get('offset') is not O:
+                            return f'LIMIT is not pushed into the fetch but the OFFSET of the outer query is dropped: no step applies OFFSET any more (outer offset {q.fields.get("offset")!r}, written {O!r})'
+                        if ob2:
+                            pass
+                    return None
+                exl = pysym.Executor()
+                # assumed contract of ASTNode.__eq__ on the two table identifiers of this scenario: equal iff the same table (C18 decides __eq__ itself)
+                exl.stubs[('mindsdb_sql.parser.ast.base', 'ASTNode.__eq__')] = lambda ex_, a, k, node_=None: a[0] is a[1]
+                v = pysym.verify(PJ, 'PlanJoinTablesQuery.process_table', make_args, post, ex=exl)
+                oid = f'C08.limit.transfer.{"safe" if use_limit else "unsafe"}.order-{order}.{"offset" if has_offset else "nooffset"}'
+                clause = ('ensures the outer LIMIT stays; OFFSET is applied exactly once (in the fetch iff LIMIT is pushed there, else on the outer query); '
+                          'a pushed LIMIT carries the whole ORDER BY and only when every ordering column belongs to this table; nothing is pushed when use_limit is off')
+                rp = (lambda: replay_offset()) if has_offset else None
+                if v.status == PROVED:
+                    rep.proved(oid, 'pysym', v.detail, function=fn, clause=clause, seconds=v.seconds)
+                elif v.status == FAILED:
+                    rep.failed(oid, 'pysym', v.detail, function=fn, clause=clause, cex=v.cex, replay=rp() if rp else None)
+                else:
+                    rep.undecided(oid, 'pysym', v.detail, function=fn, clause=clause)
+
+
+def replay_offset():
+    """LIMIT/OFFSET queries over a left join: OFFSET must be applied by exactly one step"""
+    from mindsdb_sql.planner.steps import QueryStep, LimitOffsetStep
+    for sql in ('SELECT * FROM int1.tbl1 AS t1 LEFT JOIN int2.tbl2 AS t2 ON t1.id = t2.id ORDER BY t2.y LIMIT 2 OFFSET 1',
+                'SELECT * FROM int1.tbl1 AS t1 LEFT JOIN int2.tbl2 AS t2 ON t1.id = t2.id ORDER BY t1.x LIMIT 2 OFFSET 1',
+                'SELECT * FROM int1.tbl1 AS t1 LEFT JOIN int2.tbl2 AS t2 ON t1.id = t2.id LIMIT 2 OFFSET 1',
+                'SELECT * FROM int1.tbl1 AS t1 LEFT JOIN int2.tbl2 AS t2 ON t1.id = t2.id ORDER BY y LIMIT 2 OFFSET 1'):
+        try:
+            p = plan(sql)
+        except Exception:
+            continue
+        n = 0
+        for s_ in p.steps:
+            qq = getattr(s_, 'query', None)
+            if qq is not None and getattr(qq, 'offset', None) is not None:
+                n += 1
+            if isinstance(s_, LimitOffsetStep) and getattr(s_, 'offset', None) is not None:
+                n += 1
+        if n != 1:
+            return {'input': sql, 'dialect': 'mindsdb', 'fires': True, 'observed': f'{n} steps apply OFFSET: {[str(getattr(s_, "query", type(s_).__name__))[:90] for s_ in p.steps]}', 'expected': 'exactly one step applies OFFSET 1'}
+    return {'input': 'left joins with LIMIT 2 OFFSET 1', 'dialect': 'mindsdb', 'fires': False, 'observed': 'OFFSET applied once'}
+
+
+def cte_lookup_obligations(rep):
+    """get_integration_select_step: the result of a CTE is read only for a table reference that is not qualified by another database;
+    a table of an integration that happens to carry the name of a CTE is fetched from that integration"""
+    from mindsdb_sql.parser.ast import Identifier, Select
+    from mindsdb_sql.planner.query_planner import QueryPlanner
+    from mindsdb_sql.planner.steps import FetchDataframeStep, SubSelectStep
+    QP = 'mindsdb_sql.planner.query_planner'
+    fn = f'{QP}:QueryPlanner.get_integration_select_step'
+    cases = {'bare-cte-name': (['b'], 'cte'), 'bare-other-name': (['c'], ('fetch', 'mindsdb')), 'integration-qualified-cte-name': (['int2', 'b'], ('fetch', 'int2')),
+             'integration-qualified-upper': (['INT2', 'b'], ('fetch', 'int2')), 'integration-qualified-other': (['int2', 'c'], ('fetch', 'int2')),
+             'schema-qualified-cte-name': (['int2', 'sch', 'b'], ('fetch', 'int2'))}
+    for cname, (parts, want) in cases.items():
+        def make_args(ex, parts=parts):
+            planner = SymObj({QueryPlanner}, 'planner', prov='param')
+            planner.known_not_none = True
+            R = SymObj(None, 'cte_result', prov='param')
+            planner.fields.update(default_namespace='mindsdb', databases=['int1', 'int2', 'mindsdb'], cte_results=ex.param_container({'b': R}),
+                                  integrations={'int1': {}, 'int2': {}}, projects=['mindsdb'])
+            prepared = []
+            planner.fields['prepare_integration_select'] = Stub(lambda ex_, a, k: prepared.append((a[0], a[1])), 'prepare_integration_select')
+            t = SymObj({Identifier}, 'from_table', prov='param')
+            t.known_not_none = True
+            t.closed = True
+            t.fields.update(alias=None, parentheses=False, parts=ex.param_container(list(parts)))
+            sel = SymObj({Select}, 'select', prov='param')
+            sel.known_not_none = True
+            sel.copyable = True
+            sel.fields.update(from_table=t, using=None, alias=None, parentheses=False)
+            ex.path_state.update(R=R, sel=sel, prepared=prepared)
+            return [planner, sel], {}
+
+        def post(ex, o, want=want, parts=parts):
+            if o.kind != 'return':
+                return f'raises {getattr(o.value, "__name__", o.value)}'
+            st = o.value
+            if not isinstance(st, SymObj):
+                return f'returns {st!r}'
+            if want == 'cte':
+                if st.cls is not SubSelectStep or st.fields.get('dataframe') is not o.state['R']:
+                    return f'a bare reference to the CTE is not answered from the result of the CTE ({st!r})'
+                return None
+            if st.cls is SubSelectStep:
+                return f'table {".".join(parts)} is read from the result of the CTE named {parts[-1]!r} although it is qualified by integration {parts[0]!r}'
+            if st.cls is not FetchDataframeStep or st.fields.get('integration') != want[1]:
+                return f'table {".".join(parts)} is not fetched from {want[1]!r}: {st!r} integration={st.fields.get("integration")!r}'
+            return None
+        v = pysym.verify(QP, 'QueryPlanner.get_integration_select_step', make_args, post)
+        oid = f'C08.cte.lookup.{cname}'
+        clause = 'ensures a CTE result is read iff the table reference carries no other database qualifier and names a CTE; otherwise FetchDataframeStep(integration = resolved database)'
+        if v.status == PROVED:
+            rep.proved(oid, 'pysym', v.detail, function=fn, clause=clause, seconds=v.seconds)
+        elif v.status == FAILED:
+            rep.failed(oid, 'pysym', v.detail, function=fn, clause=clause, cex=v.cex, replay=replay_cte_lookup())
+        else:
+            rep.undecided(oid, 'pysym', v.detail, function=fn, clause=clause)
+
+
+def replay_cte_lookup():
+    from mindsdb_sql.planner.steps import FetchDataframeStep
+    sql = 'WITH b AS (SELECT id FROM int1.a) SELECT id FROM b UNION ALL SELECT id FROM int2.b'
+    try:
+        p = plan(sql)
+    except Exception as e:
+        return {'input': sql, 'dialect': 'mindsdb', 'fires': False, 'observed': f'{type(e).__name__}: {e}'[:120]}
+    ints = [s_.integration for s_ in p.steps if isinstance(s_, FetchDataframeStep)]
+    return {'input': sql, 'dialect': 'mindsdb', 'fires': 'int2' not in ints, 'observed': f'fetches from {ints}: {[type(s_).__name__ for s_ in p.steps]}', 'expected': 'one fetch from int2 for int2.b'}
 
 
 # ------------------------------------------------------------------ set operations across integrations
@@ -735,6 +937,7 @@ def check(rep, tier):
     context_obligations(rep)
     conjunct_obligations(rep)
     union_obligations(rep)
+    cte_lookup_obligations(rep)
     semijoin_obligations(rep)
     outer_obligation(rep)
     bounded(rep, tier)
